@@ -19,7 +19,7 @@ RULE = ('five Hypothesis sub-checks.  computechi2: A 5-60 x 1-6 (well conditione
         'non-increasing, usemask == number of good spectra per pixel.  Non-trivial: >=1 zero weight and K >= 2 (HMF), >= 3 parameters (computechi2).')
 ASSUMPTIONS = ['computechi2 is given a 2-D full-rank design matrix with cond(A sqrt(W)) < 3e4; tolerance 10 x max(1e-9, 1e-13 cond^2) relative (it inverts A^T W A)',
                'pcomp: the derived-variables relation is asserted for standardize=False (with standardize=True pydl adds the centred data back, mirroring the IDL routine; not covered by the statement as written)',
-               'HMF / pca_solve spectra are non-degenerate (distinct, non-constant spectra; kmeans returns K centroids); no all-zero ivar column or row',
+               'HMF / pca_solve spectra are non-degenerate (distinct, non-constant spectra; kmeans returns K centroids); no all-zero ivar row; all-zero ivar columns for pca_solve only; columns with fewer good spectra than components for HMF steps only with epsilon > 0',
                'pca_solve returns float32 eigenspectra: projection compared at 2e-4 relative',
                'the global NumPy RNG is re-seeded by the harness with case-supplied values before each HMF.solve to emulate "different global RNG states" deterministically']
 
@@ -102,7 +102,7 @@ def chi_body(case):
 # ------------------------------------------------------------------ pcomp
 @st.composite
 def pcomp_case(draw):
-    return dict(no=draw(st.integers(20, 80)), nv=draw(st.sampled_from([3, 4, 2, 6, 5])), seed=draw(st.integers(0, 10 ** 6)),
+    return dict(no=draw(st.one_of(st.integers(20, 80), st.integers(20, 80), st.integers(3, 8))), nv=draw(st.sampled_from([3, 4, 2, 6, 5])), seed=draw(st.integers(0, 10 ** 6)),
                 covariance=draw(st.booleans()), standardize=draw(st.booleans()), scale=draw(st.sampled_from([1.0, 100.0])))
 
 
@@ -138,7 +138,7 @@ def hmf_case(draw):
     N = draw(st.integers(max(6, 3 * K), 20))
     M = draw(st.integers(20, 60))
     return dict(N=N, M=M, K=K, seed=draw(st.integers(0, 10 ** 6)), zf=draw(st.sampled_from([0.1, 0.0, 0.25])),
-                epsilon=draw(st.sampled_from([None, 0.0, 0.3, 0.05])), positive=draw(st.booleans()))
+                epsilon=draw(st.sampled_from([None, 0.0, 0.3, 0.05])), positive=draw(st.booleans()), sparse_if_eps=draw(st.sampled_from([0, 0, 1, 2])))
 
 
 def hmf_data(case):
@@ -159,6 +159,15 @@ def hmf_data(case):
     for i in range(N):
         if (~mask[i, :]).sum() < K + 2:
             mask[i, :] = False
+    # optional degenerate pixels: `sparse` columns keep fewer good spectra than components (well-posed only with the smoothness
+    # penalty epsilon > 0), `dead` columns are masked in every spectrum (pca_solve: use-mask count 0)
+    for q in range(case.get('sparse', 0)):
+        j = (seed + 11 * q + 3) % M
+        rows = [(seed + 5 * q + r) % N for r in range(max(1, K - 1))]
+        mask[:, j] = True
+        mask[rows, j] = False
+    for q in range(case.get('dead', 0)):
+        mask[:, (seed + 7 * q + 1) % M] = True
     iv[mask] = 0.0
     return sp, iv
 
@@ -168,6 +177,10 @@ def hmf_steps_body(case):
     N, M, K = case['N'], case['M'], case['K']
     sp, iv = hmf_data(case)
     eps = case['epsilon']
+    if eps and case.get('sparse_if_eps'):
+        case = dict(case, sparse=case['sparse_if_eps'])
+        sp, iv = hmf_data(case)
+        note_label('pixel-with-fewer-good-spectra-than-components')
     h = HMF(sp.copy(), iv.copy(), K=K, epsilon=eps)
     h.g = pseudo(case['seed'] + 7, (K, M))
     h.a = pseudo(case['seed'] + 8, (N, K))
@@ -261,7 +274,7 @@ def hmf_solve_body(case):
 def pca_case(draw):
     base = draw(hmf_case())
     base['positive'] = True
-    return dict(base, nkeep=draw(st.sampled_from([2, 1, 3])), niter=draw(st.sampled_from([2, 3])))
+    return dict(base, nkeep=draw(st.sampled_from([2, 1, 3])), niter=draw(st.sampled_from([2, 3])), dead=draw(st.sampled_from([0, 0, 1, 2])))
 
 
 def pca_body(case):
